@@ -509,7 +509,7 @@ def disk_kind(snap, p):
     return {"file": "file", "dir": "directory", "link": "symlink"}[v[0]]
 
 
-def origin_class(w, snap, p):
+def origin_class(w, snap, p, unv=False):
     """Where what is now at p comes from, judged from the disk alone: kept (same path, same bytes), moved (bytes
     of a base file at another path), moved-with-parent (same basename below another directory), created,
     vacated (was there before, gone now), never, dir-kept, dir-new."""
@@ -518,11 +518,14 @@ def origin_class(w, snap, p):
         return "vacated" if p in w["snap0"] else "never"
     if v[0] == "dir":
         return "dir-kept" if w["snap0"].get(p, (None,))[0] == "dir" else "dir-new"
+    sfx = "-unv" if (unv and v[0] == "file" and v[1] == BASE_FILES["u"]) else ""   # bytes of the unversioned base file
     if w["snap0"].get(p) is not None and w["snap0"][p][:2] == v[:2]:
-        return "kept"
+        return "kept" + sfx
     if v[0] == "file":
         for bp, bb in BASE_FILES.items():
             if bb == v[1]:
+                if sfx:
+                    return "moved" + sfx
                 if "/" in bp and os.path.basename(bp) == os.path.basename(p) and os.path.dirname(bp) != os.path.dirname(p):
                     return "moved-with-parent"
                 return "moved"
@@ -701,8 +704,8 @@ def run_program(fmt, prog, fresh=False):
                     except Exception as e:  # noqa
                         failed_phase = "apply"
                         res["status"] = "apply-error"
-                        vio("apply:%s:%s" % (type(e).__name__, _where(sys.exc_info()[2])), error=str(e)[:300],
-                            raw_conflicts_before=list(res["raw0"]))
+                        res["apply_sig"] = "apply:%s%s:%s" % (type(e).__name__, _reason_slug(e), _where(sys.exc_info()[2]))
+                        vio(res["apply_sig"], error=str(e)[:300], raw_conflicts_before=list(res["raw0"]))
             except Hang:
                 failed_phase = "hang"
                 res["status"] = "hang"
@@ -738,16 +741,26 @@ def run_program(fmt, prog, fresh=False):
         if snap != w["snap0"]:
             w["dirty"] = True
             diff = sorted(p for p in set(snap) | set(w["snap0"]) if snap.get(p) != w["snap0"].get(p))
-            vio("partial:directory-changed:after-%s" % res["status"], paths=diff)
+            vio("partial:directory-changed:after-%s" % res.get("apply_sig", res["status"]), paths=diff)
         if comparable(after) != comparable(w["dump0"]):
             w["dirty"] = True
-            vio("partial:versioned-state-changed:after-%s" % res["status"],
+            vio("partial:versioned-state-changed:after-%s" % res.get("apply_sig", res["status"]),
                 entries=repr(after["entries"])[:400])
     else:
         compare(w, prog, res, vio)
     if fmt == "bzr" and reversions(prog):
         res["vio"] = _collapse_reversioned(res["vio"])
     return res
+
+
+def _reason_slug(e):
+    """'(reason-in-words)' for exceptions that carry a reason (InconsistentDelta), else ''."""
+    import re
+    reason = getattr(e, "reason", None)
+    if not isinstance(reason, str):
+        return ""
+    reason = reason.split(" by id")[0].split("[")[0]
+    return "(" + re.sub(r"[^a-z]+", "-", reason.lower()).strip("-")[:60] + ")"
 
 
 def reversions(prog):
@@ -819,7 +832,7 @@ def compare(w, prog, res, vio):
         for p in sorted(set(pcmp) | set(acmp)):
             if pcmp.get(p) != acmp.get(p):
                 v_ok = False
-                once("mismatch:versioned:%s:%s" % (_vclass(pcmp.get(p), acmp.get(p)), origin_class(w, snap, p)),
+                once("mismatch:versioned:%s:%s" % (_vclass(pcmp.get(p), acmp.get(p)), origin_class(w, snap, p, unv=True)),
                      path=p, preview=pcmp.get(p), applied=acmp.get(p))
         if fmt == "git" and v_ok:
             for p in sorted(aents):
